@@ -119,6 +119,25 @@ def check(an, rep, tier):
             t = node.targets[0]
             zname = t.elts[0].id if isinstance(t, ast.Tuple) else \
                 getattr(t, 'id', None)
+    # --- U-square: the first marginal squares the pivot core, which carries
+    # the whole norm of the tensor; it must have gone through the power-of-two
+    # normalisation (or a division by its own norm) before it is squared
+    for r in runs:
+        if r.qualname != 'sample.sample_square':
+            continue
+        for st in r.I.sites:
+            if st.rule != 'U-square' or \
+                    st.where != 'sample._sample_core_first':
+                continue
+            raw = st.status == 'unknown' and st.detail == 'raw'
+            rep.add('U-square', st.where, st.construct,
+                    'violation' if raw else st.status,
+                    '' if not raw else 'the squared operand is the pivot core '
+                    'of an orthogonalisation without power-of-two '
+                    'stabilisation (ledger %s): it carries the whole norm of '
+                    'the tensor and its squares over- / underflow for tensors '
+                    'of representable norm' % st.facts.get('lg'),
+                    line=getattr(st.node, 'lineno', None), file=mod.path)
     if piv is None or zname is None:
         rep.error('sample.sample_square: orthogonalize call not found')
     else:
@@ -173,4 +192,5 @@ def check(an, rep, tier):
     rep.floor('S-einsum', 2, 'marginal / conditional contractions')
     rep.floor('R-draw-local', 6, 'draw sites in sample.py')
     rep.floor('O-pivot', 3, 'pivot rules')
+    rep.floor('U-square', 1, 'normalised pivot core before squaring')
     rep.floor('P-lhs', 1, 'LHS remainder draw')
